@@ -22,7 +22,7 @@ ENV = dict(os.environ, GOFLAGS="-mod=mod", GOPROXY="off", GOSUMDB="off", GOTOOLC
 
 def sh(cmd, cwd, timeout=2400):
     p = subprocess.run(cmd, shell=True, cwd=cwd, env=ENV, stdout=subprocess.PIPE, stderr=subprocess.STDOUT,
-                       text=True, timeout=timeout)
+                       text=True, errors='replace', timeout=timeout)
     return p.returncode, p.stdout
 
 
